@@ -421,7 +421,9 @@ class Evaluator:
                 return App("bound", (Ref("func", m), base), node)
             a = self.repo.class_attr(ci, attr)
             if a is not None:
-                if not self._exact_instance(base, fr) and self._overridden_below(ci, attr):
+                if self._overridden_below(ci, attr) and not (self._exact_instance(base, fr) and attr in
+                                                             {a for c in self.repo.mro(ci) for a in c.attrs} and
+                                                             not self._instance_assigned(ci, attr)):
                     return App("attr:" + attr, (base,), node)
                 return self.eval_expr(a[0], State(), Frame(None, a[1].module, None, 0))
         return App("attr:" + attr, (base,), node)
@@ -433,10 +435,28 @@ class Evaluator:
             return True
         return bool(fr.exact)
 
+    def _instance_assigned(self, ci, attr) -> bool:
+        for c in self.repo.mro(ci) + self.repo.subclasses(ci):
+            for m in c.methods.values():
+                for n in ast.walk(m.node):
+                    if isinstance(n, ast.Attribute) and isinstance(n.ctx, ast.Store) and n.attr == attr \
+                            and isinstance(n.value, ast.Name) and n.value.id in ("self", "cls"):
+                        return True
+        return False
+
     def _overridden_below(self, ci, attr) -> bool:
         key = (ci.fq, attr)
         if key not in self._override_cache:
-            self._override_cache[key] = any(attr in sub.attrs for sub in self.repo.subclasses(ci))
+            over = any(attr in sub.attrs for sub in self.repo.subclasses(ci))
+            if not over:
+                # assigned as an instance attribute somewhere in the class family
+                for c in self.repo.mro(ci) + self.repo.subclasses(ci):
+                    for m in c.methods.values():
+                        for n in ast.walk(m.node):
+                            if isinstance(n, ast.Attribute) and isinstance(n.ctx, ast.Store) and n.attr == attr \
+                                    and isinstance(n.value, ast.Name) and n.value.id in ("self", "cls"):
+                                over = True
+            self._override_cache[key] = over
         return self._override_cache[key]
 
     def class_of_instance(self, t, fr) -> Optional[ClassInfo]:
@@ -735,6 +755,11 @@ class Evaluator:
             import builtins
             try:
                 return Const(getattr(builtins, dotted)(*[a.v for a in args]))
+            except Exception:
+                pass
+        if dotted in ("bytes.fromhex", "bytearray.fromhex") and allc and len(args) == 1:
+            try:
+                return Const(bytes.fromhex(args[0].v))
             except Exception:
                 pass
         if dotted == "bytes":
